@@ -5,5 +5,5 @@ CONSTANTS
   TamperLen = 100
   Lens = {0, 1, 7, 8, 9, 15, 16, 17, 100, 4096, 65519, 65520, 65528, 65535, 65536, 65537}
   Passwords = {"empty", "ascii", "utf8", "long", "bmp_edge", "badutf8"}
-  WrongPwd = {"char", "case", "longer", "shorter", "empty", "other", "lowbyte", "badbyte"}
+  WrongPwd = {"char", "case", "longer", "shorter", "empty", "other", "lowbyte", "badbyte", "nulsuffix", "nulpad"}
 INVARIANTS RecipientsRecover OnlyRecipients VerifiesExactlyWhenGenuine BundleOnlyWithPassword Emit
